@@ -19,7 +19,7 @@ type B64 = Autodiff<NdArray<f64>>;
 
 /// accepted distance between an implementation value and the f64 reference
 fn tol(reference: f64, perturbed: f64, eps: f64) -> f64 {
-    50.0 * (reference - perturbed).abs() + 256.0 * eps * reference.abs() + 64.0 * eps
+    200.0 * (reference - perturbed).abs() + 256.0 * eps * reference.abs() + 64.0 * eps
 }
 
 fn jig(g: &mut Sm64, x: f64, eps: f64) -> f64 {
@@ -234,7 +234,7 @@ where
             }
             let gscale = rg.iter().map(|v| v.abs()).fold(0.0, f64::max);
             for k in 0..d {
-                let tg = 50.0 * (rg[k] - pg[k]).abs() + 256.0 * eps * gscale + 64.0 * eps;
+                let tg = 200.0 * (rg[k] - pg[k]).abs() + 256.0 * eps * gscale + 64.0 * eps;
                 rep.max("gradient_error_over_tol", (gr[k] - rg[k]).abs() / tg);
                 if (gr[k] - rg[k]).abs() > tg {
                     rep.violation(&format!("{sig} {which} gradient"), mon, case,
